@@ -14,20 +14,25 @@ EXTENDS Naturals
 Clients  == {"blocking", "async"}
 Backends == {"native-tls", "rustls"}
 Ignores  == {"unset", "false", "true"}
-Roots    == {"none", "pem", "der", "unrelated", "ownleaf"}     \* "ownleaf": the server's own certificate supplied as a root (extension)
-Certs    == {"valid", "wrongname", "expired", "selfsigned", "unknownissuer"}
+Roots    == {"none", "pem", "der", "unrelated", "ownleaf",      \* "ownleaf": the server's own certificate supplied as a root (extension)
+             "unrel+pem", "unrel+der", "der+unrel", "pem+der"}   \* several roots supplied one after the other (the statement says "a root supplied")
+WithPem(r) == r \in {"pem", "unrel+pem", "pem+der"}
+WithDer(r) == r \in {"der", "unrel+der", "der+unrel", "pem+der"}
+HasCorrectRoot(r) == WithPem(r) \/ WithDer(r)
+Certs    == {"valid", "wrongname", "expired", "selfsigned", "unknownissuer",
+             "justexpired"}                  \* expired two minutes before the run (issued at every run): "is expired" has no grace period
 Configs  == [client : Clients, backend : Backends, ignore : Ignores, roots : Roots, cert : Certs]
 
 (* DerRoots = "dropped" reproduces D9: the async rustls client silently    *)
 (* loses a root supplied in DER form                                       *)
 RootUsable(c, derRoots) ==
-  \/ c.roots = "pem"
-  \/ (c.roots = "der" /\ ~(derRoots = "dropped" /\ c.client = "async" /\ c.backend = "rustls"))
+  \/ WithPem(c.roots)
+  \/ (WithDer(c.roots) /\ ~(derRoots = "dropped" /\ c.client = "async" /\ c.backend = "rustls"))
 ChainOK(c, derRoots) == c.cert = "valid" /\ RootUsable(c, derRoots)   \* chains to a supplied root, in validity, name matches
-Accept(c) == c.ignore = "true" \/ (c.cert = "valid" /\ c.roots \in {"pem", "der"})
+Accept(c) == c.ignore = "true" \/ (c.cert = "valid" /\ HasCorrectRoot(c.roots))
 (* Supplying the server's own certificate as a root is outside C12's matrix.  An expired or wrongly    *)
 (* named certificate must still be refused (the defect is in the certificate, not in the trust         *)
 (* anchor); for the other certificates the back ends may differ (a leaf used as anchor) and either     *)
 (* answer is a step.                                                                                   *)
-Unspecified(c) == c.roots = "ownleaf" /\ c.ignore # "true" /\ c.cert \notin {"wrongname", "expired"}
+Unspecified(c) == c.roots = "ownleaf" /\ c.ignore # "true" /\ c.cert \notin {"wrongname", "expired", "justexpired"}
 =============================================================================
